@@ -182,6 +182,99 @@ pub open spec fn rd_progress(a: RdPos, b: RdPos) -> bool {
         || (b.idx == a.idx && a.corrupted == b.corrupted && b.cursor > a.cursor)
 }
 
+// ------------------------------------------------------------------------------------ record reader
+/// a reader position that can still make progress is inside the blocks
+pub open spec fn pos_ok(blocks: Seq<Seq<u8>>, p: RdPos) -> bool {
+    0 <= p.idx < blocks.len() && 0 <= p.cursor <= BLOCK()
+}
+
+pub open spec fn blocks_ok(blocks: Seq<Seq<u8>>) -> bool {
+    forall|i: int| 0 <= i < blocks.len() ==> (#[trigger] blocks[i]).len() == BLOCK()
+}
+
+/// frame_step keeps positions inside the blocks and makes strict progress unless it reports End
+pub proof fn lemma_frame_step_progress(blocks: Seq<Seq<u8>>, p: RdPos)
+    requires pos_ok(blocks, p), blocks_ok(blocks),
+    ensures
+        pos_ok(blocks, frame_step(blocks, p).next()),
+        !(frame_step(blocks, p) is End) ==> rd_progress(p, frame_step(blocks, p).next()),
+        frame_step(blocks, p) is End ==> frame_step(blocks, p).next() == p || rd_progress(p, frame_step(blocks, p).next()),
+{
+}
+
+pub enum RStep {
+    /// a complete entry (all frames First..Last intact and consecutive) was assembled
+    Record { bytes: Seq<u8>, next: RdPos },
+    /// a damaged frame was met: the entry being assembled is abandoned
+    Corrupt { next: RdPos },
+    /// no more frame: a partly assembled entry stays pending
+    End { next: RdPos, within: bool, buf: Seq<u8> },
+}
+
+impl RStep {
+    pub open spec fn next(self) -> RdPos {
+        match self { RStep::Record { next, .. } => next, RStep::Corrupt { next } => next, RStep::End { next, .. } => next }
+    }
+}
+
+pub open spec fn rd_measure(blocks: Seq<Seq<u8>>, p: RdPos) -> (int, int, int) {
+    (blocks.len() - p.idx, if p.corrupted { 0int } else { 1int }, BLOCK() - p.cursor)
+}
+
+/// The entry-level reading rule (C12): assemble frames into one entry.
+/// `within`/`buf`: an entry is being assembled and these are its bytes so far.
+pub open spec fn rec_step(blocks: Seq<Seq<u8>>, p: RdPos, within: bool, buf: Seq<u8>) -> RStep
+    decreases blocks.len() - p.idx, (if p.corrupted { 0int } else { 1int }), BLOCK() - p.cursor,
+    when pos_ok(blocks, p) && blocks_ok(blocks)
+    via rec_step_decreases
+{
+    match frame_step(blocks, p) {
+        FStep::End { next } => RStep::End { next, within, buf },
+        FStep::Corrupt { next } => RStep::Corrupt { next },
+        FStep::Frame { ty, payload, next } => {
+            // a first frame (re)starts an entry, dropping whatever was pending
+            let w1 = if type_is_first(ty) { true } else { within };
+            let b1 = if type_is_first(ty) { Seq::<u8>::empty() } else { buf };
+            if w1 {
+                if type_is_last(ty) { RStep::Record { bytes: b1 + payload, next } }
+                else { rec_step(blocks, next, true, b1 + payload) }
+            } else {
+                // continuation frame of an entry whose start was lost: contributes nothing
+                rec_step(blocks, next, false, b1)
+            }
+        }
+    }
+}
+
+#[via_fn]
+proof fn rec_step_decreases(blocks: Seq<Seq<u8>>, p: RdPos, within: bool, buf: Seq<u8>) {
+    lemma_frame_step_progress(blocks, p);
+}
+
+/// rec_step keeps positions inside the blocks; Record/Corrupt make strict progress
+pub proof fn lemma_rec_step_progress(blocks: Seq<Seq<u8>>, p: RdPos, within: bool, buf: Seq<u8>)
+    requires pos_ok(blocks, p), blocks_ok(blocks),
+    ensures
+        pos_ok(blocks, rec_step(blocks, p, within, buf).next()),
+        !(rec_step(blocks, p, within, buf) is End) ==> rd_progress(p, rec_step(blocks, p, within, buf).next()),
+        rec_step(blocks, p, within, buf) is End ==> rec_step(blocks, p, within, buf).next() == p || rd_progress(p, rec_step(blocks, p, within, buf).next()),
+    decreases blocks.len() - p.idx, (if p.corrupted { 0int } else { 1int }), BLOCK() - p.cursor,
+{
+    lemma_frame_step_progress(blocks, p);
+    match frame_step(blocks, p) {
+        FStep::Frame { ty, payload, next } => {
+            let w1 = if type_is_first(ty) { true } else { within };
+            let b1 = if type_is_first(ty) { Seq::<u8>::empty() } else { buf };
+            if w1 {
+                if !type_is_last(ty) { lemma_rec_step_progress(blocks, next, true, b1 + payload); }
+            } else {
+                lemma_rec_step_progress(blocks, next, false, b1);
+            }
+        }
+        _ => {}
+    }
+}
+
 // ------------------------------------------------------------------------------------ WAL entries
 /// abstract WAL entry: kind code (on-disk type byte), queue name, position field, body
 /// kinds: 1 = Truncate(..=position), 2 = RecordPosition(next = position), 3 = DeleteQueue, 4 = AppendRecords
